@@ -1590,7 +1590,19 @@ func (a *Analysis) computeGlobalFacts() *globalFactsT {
 		for _, c := range cs {
 			// a caller that is itself start-up only: an initialiser, or a forwarding function (an exported registrar that
 			// hands on to a method of a table object, say) that in turn only start-up code – or nobody – calls
-			if !isInitFunc(c) && !startupOnlyRec(c, visiting) {
+			if isInitFunc(c) {
+				continue
+			}
+			if len(callersOf[c]) == 0 {
+				// nobody calls the caller: an exported function that only forwards to this one is the same API under
+				// another name (kept for applications' start-up); anything else that nobody calls statically – an
+				// Encode method, a primitive – is run-time code
+				if c.Object() != nil && c.Object().Exported() && forwardsTo(c, fn) {
+					continue
+				}
+				return false
+			}
+			if !startupOnlyRec(c, visiting) {
 				return false
 			}
 		}
@@ -2038,4 +2050,28 @@ func (a *Analysis) mutableRegistryFields(g *guardedState) map[int]bool {
 		}
 	}
 	return out
+}
+
+// forwardsTo: c does nothing but hand its arguments on to fn – one block, one call (of fn), no stores or other effects
+// (an exported `RegistryXFactory(k, f)` whose body is `xTable.register(k, f)`).
+func forwardsTo(c, fn *ssa.Function) bool {
+	if c == nil || len(c.Blocks) != 1 {
+		return false
+	}
+	calls := 0
+	for _, in := range c.Blocks[0].Instrs {
+		switch x := in.(type) {
+		case ssa.CallInstruction:
+			if _, isCall := x.(*ssa.Call); !isCall {
+				return false // go / defer
+			}
+			if x.Common().StaticCallee() != fn {
+				return false
+			}
+			calls++
+		case *ssa.Store, *ssa.MapUpdate, *ssa.Send, *ssa.Panic:
+			return false
+		}
+	}
+	return calls == 1
 }
